@@ -31,7 +31,7 @@ class P:
 
 def decode_exec(p, order, api="recv", finish=True, cb=None, probe="each", release_at=None, s=0, query_first=False,
                 dup=(), double_finish=False, both=False, refinish=False, builds_before=0, build_slot="buf",
-                cb_late=False, cb_replace=None):
+                cb_late=False, cb_replace=None, mixed_cut=None):
     """One decoder execution. order: ESIs in arrival order (may contain repeats).
     probe: 'each' = complete+gettab after every call, 'end' = only at the end."""
     out = ["create %d %d dec%s" % (s, p.codec, " both" if both else ""), p.params_line(s)]
@@ -76,7 +76,7 @@ def decode_exec(p, order, api="recv", finish=True, cb=None, probe="each", releas
                 probe_now()
     elif api == "mixed":
         # the symbols at hand when decoding starts go through of_set_available_symbols, later arrivals one by one
-        cut = len(order) // 2
+        cut = len(order) // 2 if mixed_cut is None else max(0, min(len(order), mixed_cut))
         first = sorted(set(order[:cut]))
         if not maybe_release():
             out.append("setavail %d %s" % (s, ",".join(str(e) for e in first) if first else "-"))
